@@ -104,7 +104,7 @@ def run_table(case):
     prof = Profile("t", min_quality=case["minq"], min_mapq=case["minmq"], min_coverage=case["mincov"], threshold=case["thr"] / 100.0)
     rng = random.Random(case["seed"])
     dele = gene.deletion_allele()
-    confs = [c for c in gene.cn_configs if c != dele]
+    confs = [c for c in gene.cn_configs if c != dele or case.get("with_del")]
     by = {c: natsorted(a for a in gene.alleles if gene.alleles[a].cn_config == c) for c in confs}
     confs = [c for c in confs if by[c]]
     struct = [confs[i % len(confs)] if k else "1" for k, i in enumerate(case["struct"])]
@@ -128,6 +128,33 @@ def run_table(case):
     for p, ops in raw.items():
         for o, v in ops.items():
             ops[o] = [(case["minmq"], case["minq"]) if rng.random() < 0.5 else x for x in v]
+
+    # weak qualifying evidence: a few good reads of a catalogued variant (a fraction that may lie between the stage thresholds)
+    nweak = 0
+    weak_dir = False
+    for j, n in case.get("weak", []):
+        p, o = sites[j % len(sites)]
+        if cn.position_cn(p) > 0 and o not in raw.get(p, {}):
+            raw.setdefault(p, {})[o] = [(case["minmq"], case["minq"])] * n
+            nweak += 1
+
+    if case.get("weak_directed"):
+        # directed: a silent variant of a minor of a planted major that no planted copy carries, where the gene has fewer copies
+        # than the structure has members, with a qualifying fraction between threshold/(members+0.5) and threshold/(copies there+0.5)
+        th = case["thr"] / 100.0
+        cand = sorted({tuple(m) for a, _ in sel for mi in gene.alleles[a].minors.values() for m in mi.neutral_muts}
+                      - {m for _, ms in copies for m in ms})
+        cand = [m for m in cand if 0 < cn.position_cn(m[0]) < cn.max_cn() and not m[1].startswith("ins")]
+        if cand:
+            p, o = cand[case["weak_directed"] % len(cand)]
+            f = (th / (cn.max_cn() + 0.5) + th / (cn.position_cn(p) + 0.5)) / 2
+            ref_n = len(raw.get(p, {}).get("_", [])) or int(case["depth"] * cn.position_cn(p))
+            n = int(round(f * ref_n / max(1e-9, 1 - f)))
+            if 0 < n and f < 1:
+                raw.setdefault(p, {}).setdefault("_", [good] * ref_n)
+                raw[p][o] = [(case["minmq"], case["minq"])] * n
+                nweak += 1
+                weak_dir = True
 
     def bad_qual():
         opts = []
@@ -179,13 +206,38 @@ def run_table(case):
     tA, touchA, flipA = pollute(case["seed"] + 1)
     tB, touchB, flipB = pollute(case["seed"] + 2)
     labels = [f"gene:{case['gene']}", f"copies:{len(struct)}", f"minq:{case['minq']}", f"minmq:{case['minmq']}"]
+    if nweak:
+        labels.append("weak-qualifying-evidence")
+    if weak_dir:
+        labels.append("silent-variant-with-fraction-between-the-two-copy-number-thresholds")
+    if any(cn.position_cn(p) < cn.max_cn() for p, _ in sites if cn.position_cn(p) > 0):
+        labels.append("copy-number-varies-along-gene")
     viol = []
     res = {}
+    covs = {}
     for tag, tab in (("clean", raw), ("A", tA), ("B", tB)):
         cov = gen_evid.coverage_of(gene, prof, tab)
+        covs[tag] = cov
         majors = estimate_major(gene, cov, cn, "cbc")
         minors = estimate_minor(gene, cov, majors[:3], "cbc") if majors else []
         res[tag] = (summarize_major(majors), summarize_minor(minors), majors, minors)
+    if case.get("requal"):
+        # history: the thresholds are changed (public Profile.update) on the evidence object that has already been genotyped; the
+        # next call must use the thresholds in force NOW = what a fresh object with those thresholds gives
+        q2, mq2 = case["requal"]
+        held = covs["A"]
+        held.profile.update({"min_quality": q2, "min_mapq": mq2})
+        mj = estimate_major(gene, held, cn, "cbc")
+        mi = estimate_minor(gene, held, mj[:3], "cbc") if mj else []
+        prof2 = Profile("t", min_quality=q2, min_mapq=mq2, min_coverage=case["mincov"], threshold=case["thr"] / 100.0)
+        fresh = gen_evid.coverage_of(gene, prof2, tA)
+        mj2 = estimate_major(gene, fresh, cn, "cbc")
+        mi2 = estimate_minor(gene, fresh, mj2[:3], "cbc") if mj2 else []
+        if (summarize_major(mj), summarize_minor(mi)) != (summarize_major(mj2), summarize_minor(mi2)):
+            viol.append(V("quality-thresholds-of-an-earlier-call-still-in-force", thresholds=[case["minq"], case["minmq"]], changed_to=[q2, mq2],
+                          held=str((summarize_major(mj), summarize_minor(mi)))[:300], fresh=str((summarize_major(mj2), summarize_minor(mi2)))[:300]))
+        labels.append("thresholds-changed-on-held-evidence")
+        held.profile.update({"min_quality": case["minq"], "min_mapq": case["minmq"]})
     for tag in ("A", "B"):
         if res[tag][0] != res["clean"][0]:
             viol.append(V("low-quality-reads-change-major-solutions", clean=str(res["clean"][0])[:300], polluted=str(res[tag][0])[:300]))
@@ -241,7 +293,9 @@ def strategy(tier):
         d = {"gene": st.just(g), "build": st.sampled_from(["hg19", "hg38"]),
              "struct": st.lists(st.integers(0, 9), min_size=1, max_size=3), "depth": st.sampled_from([8, 15, 25]),
              "minq": st.sampled_from([0, 10, 10, 20, 40]), "minmq": st.sampled_from([0, 10, 10, 30]),
-             "mincov": st.integers(1, 10), "thr": st.sampled_from([10, 30, 50, 50, 70, 90]), "seed": st.integers(0, 10 ** 6)}
+             "mincov": st.integers(1, 10), "thr": st.sampled_from([10, 30, 50, 50, 70, 90]), "seed": st.integers(0, 10 ** 6),
+             "with_del": st.booleans(), "weak_directed": st.sampled_from([0, 0, 1, 2, 3]), "weak": st.lists(st.tuples(st.integers(0, 60), st.integers(1, 20)).map(list), max_size=3),
+             "requal": st.none() | st.tuples(st.sampled_from([0, 15, 35, 45]), st.sampled_from([0, 15, 35, 45])).map(list)}
         if g == "gen":
             d["db"] = gen_db.db_specs(gaps=False, pseudo=True, force_sv=True, small=True, max_sites=6, max_alleles=6)
         return st.fixed_dictionaries(d)
